@@ -15,7 +15,7 @@ RULE = ('case = one format_matching / unformat_matching call on a reachable valu
         'on a styled value; distinct = distinct (value, pattern, flags, settings).')
 ASSUMPTIONS = ['Python re.finditer is the reference for matches', 'invalid regular expressions are grey']
 MIN_EVAL = 400
-CASES = {'quick': 80, 'thorough': 1800}
+CASES = {'quick': 640, 'thorough': 10800}
 WEIGHTS = {'apply': 10, 'format_matching': 8, 'unformat_matching': 8, 'remove': 2, 'getitem': 2, 'add': 2, 'query': 0.1,
            'find_settings': 0.1, 'settings_at': 0.1}
 
